@@ -51,6 +51,7 @@ def run(ctx):
   mods = fd.module_const(mi, '_DEGREE_MODIFICATIONS')
   T['_DEGREE_MODIFICATIONS'] = mods
   from sa import pitfalls
+  regex_groups_into_tables(ctx)
   pitfalls.apply(ctx, 'PITFALL', [fi for q, fi in sorted(mi.all_functions.items()) if '.' not in q], ['falsy-zero', 'misaligned-index'], {
       'misaligned-index': 'the root written into the chord symbol is then not the root the chosen kind was found for: the named chord does not contain the supplied pitches',
       'falsy-zero': 'pitch class 0 (C, B#, Dbb) is a root / bass like any other: a written bass of pitch class 0 is dropped, so the name no longer carries the lowest supplied pitch as bass'})
@@ -710,6 +711,67 @@ def escapes(ctx, mi, T):
                pname_, sh_[0][0], sh_[0][1], sh_[0][1], sh_[0][1], sh_[0][0]) if sh_ else '', construct='%s: longest alternative first' % pname_, definite=True)
   ok = set(T['_DEGREE_OFFSETS']) == set(range(1, 8))
   ctx.ob('KEYERR/degree-offsets', mi, mi.assigns['_DEGREE_OFFSETS'][0], ok, 'normalised degrees 1..7 are exactly the keys of _DEGREE_OFFSETS' if ok else '_DEGREE_OFFSETS keys are %s' % sorted(T['_DEGREE_OFFSETS']), construct='_DEGREE_OFFSETS keys = 1..7')
+
+
+def regex_groups_into_tables(ctx, rule='KEYERR/regex-group-into-table'):
+  """A text captured by a group of a module-level pattern and used as the key of a module-level table: every text the group can
+  match must be a key.  A group with an unbounded repetition (`#*`) matches more texts than any finite table lists - the first one
+  that is missing ("###") raises KeyError, which is not ChordSymbolError.  Shared with C09 and C10."""
+  mi = ctx.P.module('chord_symbols_lib')
+  fd = fold.Folder(ctx.P, ctx.S)
+  n = 0
+  for q, fi in sorted(mi.all_functions.items()):
+    fn = fi.node
+    groups = {}
+    for st in U.walk_stmts(fn):
+      if not (isinstance(st, ast.Assign) and len(st.targets) == 1 and isinstance(st.value, ast.Call) and isinstance(st.value.func, ast.Attribute) and st.value.func.attr in ('groups', 'group')):
+        continue
+      m = U.expand_locals(fn, st.value.func.value, at=st)
+      rgx = None
+      if isinstance(m, ast.Call) and isinstance(m.func, ast.Attribute) and m.func.attr in ('match', 'fullmatch', 'search'):
+        cand = m.func.value if not (dotted(m.func.value) == 're') else (m.args[0] if m.args else None)
+        rgx = dotted(cand) if cand is not None else None
+      if rgx is None or rgx not in mi.assigns:
+        continue
+      src = mi.assigns[rgx][0]
+      pat_name = dotted(src.args[0]) if isinstance(src, ast.Call) and dotted(src.func) == 're.compile' and src.args else rgx
+      try:
+        ptxt = fd.module_const(mi, pat_name)
+      except Exception:      # pylint: disable=broad-except
+        continue
+      if not isinstance(ptxt, str):
+        continue
+      tgt = st.targets[0]
+      if st.value.func.attr == 'groups' and isinstance(tgt, (ast.Tuple, ast.List)):
+        for k, e in enumerate(tgt.elts, 1):
+          if isinstance(e, ast.Name):
+            groups[e.id] = (ptxt, k, pat_name)
+      elif st.value.func.attr == 'group' and isinstance(tgt, ast.Name) and st.value.args and isinstance(U.const_value(st.value.args[0]), int):
+        groups[tgt.id] = (ptxt, U.const_value(st.value.args[0]), pat_name)
+    for sub in ast.walk(fn):
+      if not (isinstance(sub, ast.Subscript) and isinstance(sub.ctx, ast.Load) and isinstance(sub.value, ast.Name) and sub.value.id in mi.assigns and isinstance(sub.slice, ast.Name) and sub.slice.id in groups):
+        continue
+      ptxt, k, pat_name = groups[sub.slice.id]
+      n += 1
+      cons = '%s: every text group %d of %s can match is a key of %s' % (fi.qualname, k, pat_name, sub.value.id)
+      try:
+        keys = fd.module_const(mi, sub.value.id)
+      except Exception:      # pylint: disable=broad-except
+        keys = None
+      g = rx.find_group(rx.parse(ptxt), k)
+      lang = rx.language(g) if g is not None else None
+      if not isinstance(keys, dict) or g is None:
+        why = 'cannot classify: the keys of %s (or group %d of %s) could not be determined' % (sub.value.id, k, pat_name)
+        ctx.ob(rule, fi, sub, False, why, construct=cons, unknown=why)
+      elif lang is None:
+        ctx.ob(rule, fi, sub, False, 'group %d of %s has no bound on its length (a `*` / `+` repetition) while %s has %d keys: a text the pattern accepts but the table does not list - one more '
+               'accidental than the longest key - raises KeyError instead of being read (or refused with ChordSymbolError)' % (k, pat_name, sub.value.id, len(keys)), construct=cons, definite=True)
+      else:
+        missing = sorted(x for x in lang if x not in keys)
+        ctx.ob(rule, fi, sub, not missing, 'all %d texts of the group are keys' % len(lang) if not missing else
+               'group %d of %s can match %s, which %s does not list: KeyError' % (k, pat_name, missing[:4], sub.value.id), construct=cons, definite=True)
+  if n == 0:
+    ctx.ob(rule, mi, mi.tree, True, 'no module-level table of chord_symbols_lib is keyed by a captured group held in a local', construct='tables keyed by captured groups list every match')
 
 
 def shape(ctx, mi):
